@@ -5,7 +5,7 @@
    grant of that privilege matches.  PARTIAL: token validation (jsonwebtoken) is trusted; "no
    request is served before a valid token" and the per-request table are validated on a live
    session by the session engine, not proved here. *)
-From WB Require Import Base.Str Base.Json Model.Key Model.Match Model.Core Model.Codec Model.Auth Model.Session Model.Rest Proofs.AuthFacts Proofs.SessionFacts Proofs.RestFacts Proofs.WorldCore Proofs.WorldAuth.
+From WB Require Import Base.Str Base.Json Model.Key Model.Match Model.Core Model.Codec Model.Auth Model.Session Model.Rest Proofs.AuthFacts Proofs.SessionFacts Proofs.RestFacts Proofs.WorldCore Proofs.WorldAuth Model.RestWorld Proofs.WorldRest.
 
 Theorem C15_sound_doc :
   forall g r k, wf_pat g = true -> pm g r = true -> doc_match r k = true -> doc_match g k = true.
@@ -82,6 +82,16 @@ Theorem C15_no_token_no_service :
     w_core w1 = w_core w /\ Forall (fun x => fst x = sn /\ is_refusal (snd x)) out.
 Proof. exact no_token_no_service. Qed.
 Print Assumptions C15_no_token_no_service.
+
+(* ... and with REST requests of every kind interleaved (Proofs/WorldRest.v: both front ends run on the one core) *)
+Theorem C15_mixed_no_token_no_service :
+  forall xs sn s m, Forall wev_ok xs -> wwf_hist (world_init true) xs ->
+    let w := wfinal' (world_init true) xs in
+    lookup_n sn (w_sess w) = Some s -> ss_open s = true -> ss_claims s = None ->
+    let '(w1, out, v) := handle w sn m in
+    w_core w1 = w_core w /\ Forall (fun x => fst x = sn /\ is_refusal (snd x)) out.
+Proof. exact mixed_no_token_no_service. Qed.
+Print Assumptions C15_mixed_no_token_no_service.
 
 Example C15_no_token_nonvacuous :
   let all := Claims [[35]%N] [[35]%N] [[35]%N] in
